@@ -102,35 +102,45 @@ theorem js_torn_prefix (k : Nat) :
 theorem runJob_js (flt : Option Fault) :
     JobState rel R0 s ins (runJob cfg s ins flt).1 ∧
     ((runJob cfg s ins flt).2.1 = .ok → (runJob cfg s ins flt).1.mans = []) ∧
-    (∀ f, flt = some f → (f.pos = 0 ∨ 1000 ≤ f.pos) → (runJob cfg s ins flt).1.mans = []) := by
+    (∀ f, flt = some f → (f.kind = .kill → (f.pos = 0 ∨ 1000 ≤ f.pos)) →
+      (runJob cfg s ins flt).2.1 = .killed → (runJob cfg s ins flt).1.mans = []) := by
   have hfull := js_full hC hsteps s hs h0 ins
   cases flt with
   | none => simp only [runJob]; exact ⟨hfull.1, fun _ => hfull.2, fun f hf => by cases hf⟩
   | some f =>
     simp only [runJob]
-    by_cases h1000 : f.pos ≥ 1000
-    · simp only [h1000, if_true]; exact ⟨hfull.1, fun _ => hfull.2, fun _ _ _ => hfull.2⟩
-    · simp only [h1000, if_false]
-      by_cases hlt : f.pos < (jobProgram cfg s ins).length
-      · simp only [hlt, if_true]
-        have hstate : JobState rel R0 s ins (applyMuts (bump s)
-            (List.take f.pos (jobProgram cfg s ins) ++ if (f.kind == FKind.torn) = true then partialOf (jobProgram cfg s ins) f.pos else [])) := by
-          by_cases ht : (f.kind == FKind.torn) = true
-          · simp only [ht, if_true]; exact js_torn_prefix hC hsteps s hs h0 ins f.pos
-          · simp only [ht, Bool.false_eq_true, if_false, List.append_nil]; exact js_prefix hC hsteps s hs h0 ins f.pos
-        refine ⟨hstate, ?_, ?_⟩
-        · intro hok
-          cases hk : f.kind <;> simp [outcomeOf, hk] at hok
-        · intro f' hf' hpos
-          cases hf'
-          rcases hpos with hp | hp
-          · have hp0 : partialOf (jobProgram cfg s ins) 0 = [] := by
-              rw [jobProgram_canon hsteps]
-              by_cases he : (validInputs s ins).isEmpty = true <;> simp [he, partialOf]
-            simp only [hp, List.take_zero, List.nil_append, hp0]
-            by_cases ht : (f.kind == FKind.torn) = true <;> simp [ht, applyMuts_nil, h0]
-          · exact absurd hp h1000
-      · simp only [hlt, if_false]; exact ⟨hfull.1, fun _ => hfull.2, fun _ _ _ => hfull.2⟩
+    by_cases hcan : (f.kind == FKind.cancel) = true
+    · simp only [hcan, if_true]
+      by_cases h100 : f.pos ≥ 100
+      · simp only [h100, if_true]
+        exact ⟨js_start s hs h0 ins, fun h => by simp at h, fun _ _ _ _ => h0⟩
+      · simp only [h100, if_false]; exact ⟨hfull.1, fun _ => hfull.2, fun _ _ _ _ => hfull.2⟩
+    · simp only [hcan, Bool.false_eq_true, if_false]
+      by_cases h1000 : f.pos ≥ 1000
+      · simp only [h1000, if_true]; exact ⟨hfull.1, fun _ => hfull.2, fun _ _ _ _ => hfull.2⟩
+      · simp only [h1000, if_false]
+        by_cases hlt : f.pos < (jobProgram cfg s ins).length
+        · simp only [hlt, if_true]
+          have hstate : JobState rel R0 s ins (applyMuts (bump s)
+              (List.take f.pos (jobProgram cfg s ins) ++ if (f.kind == FKind.torn) = true then partialOf (jobProgram cfg s ins) f.pos else [])) := by
+            by_cases ht : (f.kind == FKind.torn) = true
+            · simp only [ht, if_true]; exact js_torn_prefix hC hsteps s hs h0 ins f.pos
+            · simp only [ht, Bool.false_eq_true, if_false, List.append_nil]; exact js_prefix hC hsteps s hs h0 ins f.pos
+          refine ⟨hstate, ?_, ?_⟩
+          · intro hok
+            cases hk : f.kind <;> simp_all [outcomeOf]
+          · intro f' hf' hsafe hkilled
+            cases hf'
+            have hk : f.kind = .kill := by
+              cases hk' : f.kind <;> simp_all [outcomeOf]
+            rcases hsafe hk with hp | hp
+            · have hp0 : partialOf (jobProgram cfg s ins) 0 = [] := by
+                rw [jobProgram_canon hsteps]
+                by_cases he : (validInputs s ins).isEmpty = true <;> simp [he, partialOf]
+              simp only [hp, List.take_zero, List.nil_append, hp0]
+              by_cases ht : (f.kind == FKind.torn) = true <;> simp [ht, applyMuts_nil, h0]
+            · exact absurd hp h1000
+        · simp only [hlt, if_false]; exact ⟨hfull.1, fun _ => hfull.2, fun _ _ _ _ => hfull.2⟩
 
 end
 
@@ -218,20 +228,10 @@ def PlanSafe (plan : List Fault) : Prop := ∀ f ∈ plan, f.kind = .kill → (f
 def Good (rel : RowRel) (R0 : List Row) (r : Run) : Prop := Inv rel R0 r.st ∧ (r.dead = false → r.st.mans = [])
 
 theorem runJob_killed {s : St} {ins : List Path} {flt : Option Fault}
-    (h : (runJob cfg s ins flt).2.1 = .killed) : ∃ f, flt = some f ∧ f.kind = .kill := by
+    (h : (runJob cfg s ins flt).2.1 = .killed) : ∃ f, flt = some f := by
   cases flt with
   | none => simp [runJob] at h
-  | some f =>
-    refine ⟨f, rfl, ?_⟩
-    simp only [runJob] at h
-    by_cases h1 : f.pos ≥ 1000
-    · simp only [h1, if_true] at h
-      cases hk : f.kind <;> simp_all [outcomeOf]
-    · simp only [h1, if_false] at h
-      by_cases h2 : f.pos < (jobProgram cfg s ins).length
-      · simp only [h2, if_true] at h
-        cases hk : f.kind <;> simp_all [outcomeOf]
-      · simp only [h2, if_false] at h; cases h
+  | some f => exact ⟨f, rfl⟩
 
 theorem attempt_st (plan : List Fault) (batch : Nat) (r : Run) (files : List Path) :
     (attempt cfg plan batch r files).1.st =
@@ -269,7 +269,7 @@ theorem attempt_good (batch : Nat) (r : Run) (files : List Path) (hg : Good rel 
     refine ⟨hj.1.inv, fun hdead => ?_⟩
     simp at hdead
   | killed =>
-    obtain ⟨f, hf, hk⟩ := runJob_killed hoc
+    obtain ⟨f, hf⟩ := runJob_killed hoc
     by_cases hrr : cfg.retryRecovers = true
     · simp only [hrr, beq_self_eq_true, Bool.and_self, if_true]
       rcases hj.1.mans with hm | hm
@@ -289,7 +289,7 @@ theorem attempt_good (batch : Nat) (r : Run) (files : List Path) (hg : Good rel 
       · have hmem : f ∈ plan := by
           simp only [findFault] at hf
           exact List.mem_of_find?_eq_some hf
-        exact ⟨hj.1.inv, fun _ => hj.2.2 f hf (h f hmem hk)⟩
+        exact ⟨hj.1.inv, fun _ => hj.2.2 f hf (h f hmem) hoc⟩
 
 theorem adaptive_good (batch : Nat) : ∀ (fuel : Nat) (r : Run) (files : List Path), Good rel R0 r →
     Good rel R0 (adaptive cfg plan batch fuel r files).1
